@@ -31,6 +31,20 @@ def clock_src(clk):
     return f"std.Clock(self.clk, {c[0]}=std.{c[1]}({c[2]}))"
 
 
+# reset flavours of the sequential context: (active level, sync/async)
+CTX_FLAVOURS = ("hs", "ha", "ls", "la")
+
+
+def reset_src(ctx):
+    if not ctx:
+        return ""
+    return f", std.Reset(self.rst, active_low={ctx[0] == 'l'}, is_async={ctx[1] == 'a'})"
+
+
+def _ctx_key(ctx):
+    return f"/ctx={ctx}" if ctx else ""
+
+
 def dur_src(dur):
     return f"std.{dur[0]}({dur[1]})"
 
@@ -150,6 +164,9 @@ def build_wait(cfg):
         src.append(f"    n = Port.input(Unsigned[{cfg.get('nbits', 3)}])")
     if has_sel:
         src.append("    sel = Port.input(Bit)")
+    ctx = cfg.get("ctx")
+    if ctx:
+        src.append("    rst = Port.input(Bit)")
     for i in range(nmarks):
         src.append(f"    m{i} = Port.output(Bit, default=False)")
     src.append("    def architecture(self):")
@@ -158,7 +175,7 @@ def build_wait(cfg):
         src.append(f"        w = std.Waiter({dur_src(tuple(wm)) if isinstance(wm, (list, tuple)) else wm})")
     else:
         src.append("        w = None")
-    src.append(f"        @std.sequential({clock_src(clk)})")
+    src.append(f"        @std.sequential({clock_src(clk)}{reset_src(ctx)})")
     src.append("        async def proc():")
     src += body
     src.append("")
@@ -181,7 +198,8 @@ def build_wait(cfg):
         model = None
     else:
         mprog = _wait_prog(shape, mspecs)
-        model = M.WaitModel(mprog, nmarks, n_values=n_values, has_sel=has_sel)
+        model = M.WaitModel(mprog, nmarks, n_values=n_values, has_sel=has_sel, has_rst=bool(ctx),
+                            rst_active_low=bool(ctx) and ctx[0] == "l")
     return "\n".join(src), model, expect
 
 
@@ -197,7 +215,7 @@ def wait_configs(thorough):
         cfg.update(kw)
         cfg["key"] = "wait/" + api + (f"[max={_fmt(wmax)}]" if api == "waiter" else "") + "/" + shape + "/" + \
             ",".join(_fmt_spec(s) for s in specs) + (f"/clk={clk}" if clk else "") + \
-            (f"/nbits={kw['nbits']}" if "nbits" in kw else "")
+            (f"/nbits={kw['nbits']}" if "nbits" in kw else "") + _ctx_key(kw.get("ctx"))
         out.append(cfg)
 
     nmax = 12 if thorough else 6
@@ -239,6 +257,12 @@ def wait_configs(thorough):
             add(api, "again", [C(1), C(a)], wmax=7)
         for a, b in ((1, 2), (2, 1), (2, 3), (3, 3), (1, 1)):
             add(api, "if", [C(a), C(b)], wmax=7)
+        # context with a reset (asserted by the environment at arbitrary clocks)
+        for ctx in CTX_FLAVOURS:
+            for n in ((1, 2, 3, 5) if thorough else (1, 2, 3)):
+                add(api, "seq", [C(n)], wmax=7, ctx=ctx)
+            add(api, "seq", [R()], wmax=7, ctx=ctx)
+            add(api, "two", [C(2), R(True)], wmax=7, ctx=ctx)
         # Duration arguments
         for clk, durs in DURATIONS.items():
             for d in durs:
@@ -375,20 +399,21 @@ def build_counter(cfg):
     rt = cfg["limit"] == "rt"
     bits = cfg.get("bits", 2)
     src = [HEADER, "class T(Entity):", "    clk = Port.input(Bit)"]
-    if cfg["rst"]:
+    ctx = cfg.get("ctx")
+    if ctx:
         src.append("    rst = Port.input(Bit)")
     if rt:
         src.append(f"    lim = Port.input(Unsigned[{bits}])")
     src += ["    cnt = Port.output(Unsigned[4])", "    onext = Port.output(Unsigned[4])", "    def architecture(self):",
             "        def cb(v):", "            self.onext <<= v"]
-    rs = ", std.Reset(self.rst)" if cfg["rst"] else ""
-    src.append(f"        ctx = std.SequentialContext(std.Clock(self.clk){rs})")
+    src.append(f"        ctx = std.SequentialContext(std.Clock(self.clk){reset_src(ctx)})")
     lim = "self.lim" if rt else str(cfg["limit"])
     src.append(f"        c = std.continuous_counter(ctx, {lim}, on_change=cb)")
     src.append("        std.concurrent_assign(self.cnt, c)")
     src.append("")
     model = M.CounterModel(None if rt else cfg["limit"], limit_values=tuple(range(1 << bits)) if rt else None,
-                           has_rst=cfg["rst"], maxval=(1 << bits) - 1 if rt else 15)
+                           has_rst=bool(ctx), maxval=(1 << bits) - 1 if rt else 15,
+                           rst_active_low=bool(ctx) and ctx[0] == "l")
     return "\n".join(src), model, "either"
 
 
@@ -396,14 +421,14 @@ def counter_configs(thorough):
     out = []
     lims = list(range(0, 9 if thorough else 5)) + ["rt"]
     for lim in lims:
-        for rst in (False, True):
-            cfg = {"family": "counter", "limit": lim, "rst": rst}
-            cfg["key"] = f"counter/limit={lim}/" + ("rst" if rst else "norst")
+        for ctx in (None,) + CTX_FLAVOURS:
+            cfg = {"family": "counter", "limit": lim, "ctx": ctx}
+            cfg["key"] = f"counter/limit={lim}" + _ctx_key(ctx)
             out.append(cfg)
     if thorough:
-        for rst in (False, True):
-            out.append({"family": "counter", "limit": "rt", "rst": rst, "bits": 3,
-                        "key": f"counter/limit=rt3/" + ("rst" if rst else "norst")})
+        for ctx in (None,) + CTX_FLAVOURS:
+            out.append({"family": "counter", "limit": "rt", "ctx": ctx, "bits": 3,
+                        "key": "counter/limit=rt3" + _ctx_key(ctx)})
     return out
 
 
@@ -412,6 +437,8 @@ def counter_configs(thorough):
 # =============================================================================================
 def _toggle_like_ports(cfg, extra_inputs):
     src = [HEADER, "class T(Entity):", "    clk = Port.input(Bit)"]
+    if cfg.get("ctx"):
+        extra_inputs = list(extra_inputs) + [("rst", "Bit")]
     for name, ty in extra_inputs:
         src.append(f"    {name} = Port.input({ty})")
     src += ["    state = Port.output(Bit)", "    rising = Port.output(Bit)", "    falling = Port.output(Bit)",
@@ -462,7 +489,7 @@ def build_toggle(cfg):
     elif cfg["style"] == "call":
         ins.append(("en", "Bit"))
     src = _toggle_like_ports(cfg, ins)
-    src.append(f"        ctx = std.SequentialContext({clock_src(clk)})")
+    src.append(f"        ctx = std.SequentialContext({clock_src(clk)}{reset_src(cfg.get('ctx'))})")
     args = [f_src] + ([s_src] if s_src is not None else [])
     args += [f"default_state={bool(cfg['default_state'])}", f"first_state={bool(cfg['first_state'])}",
              f"require_enable={bool(cfg['require_enable'])}", "on_rising=on_r", "on_falling=on_f"]
@@ -478,15 +505,17 @@ def build_toggle(cfg):
     if expect == "reject":
         return "\n".join(src), None, expect
     vals = tuple(range(1 << bits))
+    rk = dict(ctx_rst=bool(cfg.get("ctx")), rst_active_low=bool(cfg.get("ctx")) and cfg["ctx"][0] == "l",
+              async_rst=bool(cfg.get("ctx")) and cfg["ctx"][1] == "a")
     if second is None and f_rt:
         # one run-time value used for both durations
         model = _SameDuration(M.ToggleModel(None, None, first_values=vals, second_values=vals,
                                             default_state=cfg["default_state"], first_state=cfg["first_state"],
-                                            require_enable=cfg["require_enable"], style=cfg["style"]))
+                                            require_enable=cfg["require_enable"], style=cfg["style"], **rk))
     else:
         model = M.ToggleModel(f_val, s_val, first_values=vals if f_rt else None, second_values=vals if s_rt else None,
                               default_state=cfg["default_state"], first_state=cfg["first_state"],
-                              require_enable=cfg["require_enable"], style=cfg["style"])
+                              require_enable=cfg["require_enable"], style=cfg["style"], **rk)
     return "\n".join(src), model, expect
 
 
@@ -525,7 +554,7 @@ def build_divider(cfg):
     elif cfg["style"] == "call":
         ins.append(("en", "Bit"))
     src = _toggle_like_ports(cfg, ins)
-    src.append(f"        ctx = std.SequentialContext({clock_src(clk)})")
+    src.append(f"        ctx = std.SequentialContext({clock_src(clk)}{reset_src(cfg.get('ctx'))})")
     args = [d_src, f"default_state={bool(cfg['default_state'])}", f"tick_at_start={bool(cfg['tick_at_start'])}",
             f"require_enable={bool(cfg['require_enable'])}", "on_rising=on_r", "on_falling=on_f"]
     src.append(f"        t = std.ClockDivider(ctx, {', '.join(args)})")
@@ -538,7 +567,9 @@ def build_divider(cfg):
         expect = "accept" if d_val >= 2 else "either"
     model = M.DividerModel(d_val, duration_values=tuple(range(1, 1 << bits)) if d_rt else None,
                            default_state=cfg["default_state"], tick_at_start=cfg["tick_at_start"],
-                           require_enable=cfg["require_enable"], style=cfg["style"])
+                           require_enable=cfg["require_enable"], style=cfg["style"], ctx_rst=bool(cfg.get("ctx")),
+                           rst_active_low=bool(cfg.get("ctx")) and cfg["ctx"][0] == "l",
+                           async_rst=bool(cfg.get("ctx")) and cfg["ctx"][1] == "a")
     return "\n".join(src), model, expect
 
 
@@ -558,10 +589,16 @@ def toggle_configs(thorough):
         cfg.update(kw)
         cfg["key"] = f"toggle/first={_fmt_d(first)}/second={_fmt_d(second)}/" + \
             _opts_key(cfg, ("default_state", "first_state", "require_enable")) + f"/{style}" + \
-            (f"/clk={clk}" if clk else "") + (f"/bits={kw['bits']}" if "bits" in kw else "")
+            (f"/clk={clk}" if clk else "") + (f"/bits={kw['bits']}" if "bits" in kw else "") + _ctx_key(kw.get("ctx"))
         out.append(cfg)
 
     opts = [(ds, fs, re) for ds in (0, 1) for fs in (0, 1) for re in (0, 1)]
+    # contexts with a reset (every flavour): the toggle lives in ctx.or_reset(...)
+    for ctx in CTX_FLAVOURS:
+        for ds, fs, re in opts:
+            for style in ("none", "sig", "call"):
+                for first, second in (((2, 1), ("rt", 2), (1, None), (3, 2), ("rt", "rt")) if thorough else ((2, 1), ("rt", 2))):
+                    add(first, second, ds, fs, re, style, ctx=ctx)
     # constant durations: 50% duty (second omitted) and explicit pairs, incl. the documented 1/0 and 0/1 corners
     pairs = [(a, None) for a in range(1, pmax + 1)] + \
             [(a, b) for a in range(0, pmax) for b in range(0, pmax) if (a, b) != (0, 0) and a + b <= pmax + 1] + [(0, 0)]
@@ -613,10 +650,15 @@ def divider_configs(thorough):
         cfg.update(kw)
         cfg["key"] = f"divider/duration={_fmt_d(duration)}/" + \
             _opts_key(cfg, ("default_state", "tick_at_start", "require_enable")) + f"/{style}" + \
-            (f"/clk={clk}" if clk else "") + (f"/bits={kw['bits']}" if "bits" in kw else "")
+            (f"/clk={clk}" if clk else "") + (f"/bits={kw['bits']}" if "bits" in kw else "") + _ctx_key(kw.get("ctx"))
         out.append(cfg)
 
     opts = [(ds, tas, re) for ds in (0, 1) for tas in (0, 1) for re in (0, 1)]
+    for ctx in CTX_FLAVOURS:
+        for ds, tas, re in opts:
+            for style in ("none", "sig", "call"):
+                for d in ((2, 3, 5, "rt") if thorough else (3, "rt")):
+                    add(d, ds, tas, re, style, ctx=ctx)
     for d in list(range(1, pmax + 1)) + ["rt"]:
         for ds, tas, re in opts:
             for style in ("none", "sig", "call"):
@@ -639,11 +681,11 @@ def build_debounce(cfg):
     clk = cfg.get("clk")
     p_src, p_val, _ = _dur_arg(cfg["period"], clk, None)
     src = [HEADER, "class T(Entity):", "    clk = Port.input(Bit)", "    inp = Port.input(Bit)"]
-    if cfg["rst"]:
+    ctx = cfg.get("ctx")
+    if ctx:
         src.append("    rst = Port.input(Bit)")
     src += ["    o = Port.output(Bit)", "    def architecture(self):"]
-    rs = ", std.Reset(self.rst)" if cfg["rst"] else ""
-    src.append(f"        ctx = std.SequentialContext({clock_src(clk)}{rs})")
+    src.append(f"        ctx = std.SequentialContext({clock_src(clk)}{reset_src(ctx)})")
     ini = {None: "", 0: ", initial=False", 1: ", initial=True"}[cfg["initial"]]
     src.append(f"        std.concurrent_assign(self.o, std.debounce(ctx, self.inp, {p_src}{ini}))")
     src.append("")
@@ -652,29 +694,29 @@ def build_debounce(cfg):
         if p_val is None:
             return "\n".join(src), None, "reject"
         expect = "accept"
-    model = M.DebounceModel(p_val, initial=cfg["initial"] or 0, has_rst=cfg["rst"])
+    model = M.DebounceModel(p_val, initial=cfg["initial"] or 0, has_rst=bool(ctx),
+                            rst_active_low=bool(ctx) and ctx[0] == "l")
     return "\n".join(src), model, expect
 
 
 def debounce_configs(thorough):
     out = []
 
-    def add(period, initial, rst, clk=None):
-        cfg = {"family": "debounce", "period": period, "initial": initial, "rst": rst}
+    def add(period, initial, ctx, clk=None):
+        cfg = {"family": "debounce", "period": period, "initial": initial, "ctx": ctx}
         if clk:
             cfg["clk"] = clk
-        cfg["key"] = f"debounce/period={_fmt_d(period)}/initial={initial}/" + ("rst" if rst else "norst") + \
-            (f"/clk={clk}" if clk else "")
+        cfg["key"] = f"debounce/period={_fmt_d(period)}/initial={initial}" + (f"/clk={clk}" if clk else "") + _ctx_key(ctx)
         out.append(cfg)
 
     for p in range(1, 13 if thorough else 6):
         for initial in (None, 0, 1):
-            for rst in (False, True):
-                add(p, initial, rst)
+            for ctx in (None,) + CTX_FLAVOURS:
+                add(p, initial, ctx)
     for clk, durs in DURATIONS.items():
         for d in durs:
             for initial in (0, 1):
-                add(["dur", d[0], d[1]], initial, False, clk=clk)
+                add(["dur", d[0], d[1]], initial, None, clk=clk)
     return out
 
 
